@@ -209,4 +209,25 @@ def changedCells (h h' : Heap) : List (Nat × Nat) :=
   (List.range h.size).flatMap fun a =>
     ((List.range (h.row a).size).filter fun i => (h'.row a)[i]? != (h.row a)[i]?).map fun i => (a, i)
 
+/-! ### the frame statement -/
+
+/-- `h'` is `h` after a run that may only have written the cells `W` of the first `n` arrays:
+no array disappears, each of the first `n` arrays keeps its size and every cell outside `W` -/
+def Ext (n : Nat) (W : Nat → Nat → Prop) (h h' : Heap) : Prop :=
+  h.size ≤ h'.size ∧
+  ∀ a, a < n → (h'.row a).size = (h.row a).size ∧ ∀ i, ¬ W a i → (h'.row a)[i]? = (h.row a)[i]?
+
+/-- cell `(a, i)` lies in one of the ranges `(array, lo, hi)` -/
+def InRanges (rs : List (Nat × Nat × Nat)) (a i : Nat) : Prop :=
+  ∃ r ∈ rs, r.1 = a ∧ r.2.1 ≤ i ∧ i < r.2.2
+
+/-- FRAME: whatever heap the call starts in and however it ends (result, error, panic), every
+array that existed before the call is unchanged outside the cell ranges `rs` -/
+def Frames (rs : List (Nat × Nat × Nat)) (m : M α) : Prop :=
+  ∀ h : Heap, Ext h.size (InRanges rs) h (m h).2
+
+/-- the call writes to no array that existed before it -/
+def ReadOnly (m : M α) : Prop :=
+  ∀ h : Heap, ∀ a, a < h.size → (m h).2[a]? = h[a]?
+
 end Kit.SH
